@@ -65,6 +65,8 @@ UNPROVED = [
 ]
 
 CL_D20 = "D20_gcxs_zero_extent"
+CL_MM0 = "matmul_zero_length_batch_extent"
+CL_ES1 = "einsum_extent_one_not_broadcast"
 CL_SCIPY = "scipy_operand_rejected"
 # (csc_ndarray_sparse_rows_unsorted and csc_ndarray_sparse_count_overestimates_on_cancellation were repaired in /repo:
 #  no clause any more, a recurrence is a new violation)
@@ -93,6 +95,10 @@ def _dense(spec, dt):
     d = np.zeros(tuple(spec["shape"]), dtype=dt)
     for c, v in zip(spec["coords"], spec["data"], strict=True):
         d[tuple(c)] = v
+    sc = spec.get("scale")
+    if sc:          # complex values with non-zero imaginary parts / int64 values whose products exceed 2**53
+        d = d * {"cxa": 1 + 2j, "cxb": 2 - 1j, "biga": (1 << 27) + 1, "bigb": (1 << 27) + 3}[sc]
+        d = d.astype(dt)
     return d
 
 
@@ -627,6 +633,51 @@ def api_cases(tier, rng, budget=1):
         # b squeezable to a matrix
         add(rng.choice(["matmul", "at"]), rand_spec(rng, [rng.choice([1, 2, 3]) for _ in range(nda - 2)] + [m, n], 0.7), ka,
             rand_spec(rng, [1] * (ndb - 2) + [n, p], 0.9), kb, tag="matmul_squeeze_b", follow=False)
+    # ---- matmul with 1-d / 2-d a and 4-d / 5-d b, and 4-d / 5-d a with 1-d / 2-d b; zero-length batch extents
+    hi = [(1, 4), (1, 5), (2, 4), (2, 5), (4, 1), (5, 1), (4, 2), (5, 2), (3, 5), (5, 3), (4, 4), (5, 5)]
+    for t, (nda, ndb) in enumerate(hi * (1 if quick else 6)):
+        e = [1, 2] if t % 3 else [0, 1, 2]
+        n = rng.choice([1, 2, 3])
+        sha = ([rng.choice(e) for _ in range(nda - 2)] + [rng.choice([1, 2]), n]) if nda >= 2 else [n]
+        shb = ([rng.choice(e) for _ in range(ndb - 2)] + [n, rng.choice([1, 2])]) if ndb >= 2 else [n]
+        # make the batch shapes broadcastable (right-aligned): equal or 1
+        ba, bb = sha[:-2] if nda >= 2 else [], shb[:-2] if ndb >= 2 else []
+        for k in range(1, min(len(ba), len(bb)) + 1):
+            if ba[-k] != bb[-k] and 1 not in (ba[-k], bb[-k]):
+                bb[-k] = ba[-k]
+        if nda >= 2:
+            sha = ba + sha[-2:]
+        if ndb >= 2:
+            shb = bb + shb[-2:]
+        ka, kb = rng.choice(["coo", "gcxs", "nd"]), rng.choice(["coo", "gcxs", "nd"])
+        if ka == "nd" and kb == "nd":
+            kb = "coo"
+        add(rng.choice(["matmul", "at"]), rand_spec(rng, sha, 0.7), ka, rand_spec(rng, shb, 0.7), kb, tag="matmul_highrank", follow=False)
+    # zero-length batch extents reaching the batch recursion (both operands sparse, rank >= 3)
+    for (sha, shb) in [((2, 0, 2, 3), (2, 1, 3, 4)), ((0, 2, 3), (0, 3, 4)), ((2, 1, 2, 3), (2, 0, 3, 2)), ((2, 0, 2, 3), (1, 1, 3, 4)),
+                       ((0, 2, 3), (1, 3, 4)), ((3, 0, 2, 2), (3, 0, 2, 2))]:
+        ka, kb = rng.choice(["coo", "gcxs"]), rng.choice(["coo", "gcxs"])
+        add("matmul", rand_spec(rng, sha, 1.0), ka, rand_spec(rng, shb, 1.0), kb, tag="matmul_zero_batch", follow=False)
+    # ---- complex and large-int64 data through every product kernel (dense and sparse result variants)
+    routes = [("coo", "coo", None), ("coo", "coo", "gcxs"), ("g0", "g0", None), ("g1", "g1", "coo"), ("g0", "nd", None), ("g0", "nd", "coo"),
+              ("g1", "nd", None), ("g1", "nd", "gcxs"), ("nd", "g0", None), ("nd", "g0", "coo"), ("nd", "g1", None), ("nd", "g1", "gcxs"),
+              ("coo", "nd", None), ("coo", "nd", "coo"), ("nd", "coo", None), ("nd", "coo", "gcxs")]
+    variants = [("complex128", "complex128", "cx"), ("int64", "int64", "big")] + \
+               ([("complex64", "complex64", "cx")] if not quick else [])
+    for (dta, dtb, scale) in variants:
+        for t, (ka, kb, rt) in enumerate(routes * (1 if quick else 3)):
+            m, n, p = rng.choice([2, 3]), rng.choice([2, 3]), rng.choice([2, 3])
+            A, B = (cancelling_pair(rng, m, n, p) if t % 3 == 0 else (rand_matrix(rng, m, n, 0.8), rand_matrix(rng, n, p, 0.8)))
+            sa_, sb_ = mat_spec(A, m, n), mat_spec(B, n, p)
+            sa_["scale"], sb_["scale"] = scale + "a", scale + "b"
+            add("tensordot", sa_, ka, sb_, kb, rt=rt, axes=[[1], [0]], dta=dta, dtb=dtb, tag="values/" + dta + ("_big" if scale == "big" else ""),
+                follow=False)
+    if quick:       # complex64: the sparse-result kernels only (every dtype compiles its own kernels)
+        for (ka, kb, rt) in [r_ for r_ in routes if r_[2] is not None][:6]:
+            A, B = cancelling_pair(rng, 2, 3, 2)
+            sa_, sb_ = mat_spec(A, 2, 3), mat_spec(B, 3, 2)
+            sa_["scale"], sb_["scale"] = "cxa", "cxb"
+            add("tensordot", sa_, ka, sb_, kb, rt=rt, axes=[[1], [0]], dta="complex64", dtb="complex64", tag="values/complex64", follow=False)
     # ---- einsum
     subs2 = [("ij,jk->ik", 2, 2), ("ij,kj->ik", 2, 2), ("ij,ij->", 2, 2), ("ij,ij->ij", 2, 2), ("i,i->", 1, 1), ("i,j->ij", 1, 1),
              ("ijk,kl->ijl", 3, 2), ("ij,jk", 2, 2), ("ii,i->i", 2, 1), ("ijk,jik->", 3, 3), ("...j,j->...", 3, 1), ("ij,j->i", 2, 1),
@@ -650,6 +701,40 @@ def api_cases(tier, rng, budget=1):
         if ka == "nd" and kb == "nd":
             kb = "coo"
         add("einsum", rand_spec(rng, sa), ka, rand_spec(rng, sb), kb, sub=sub, tag="einsum2", follow=False)
+    # two operands whose `...` cover DIFFERENT numbers of axes (aligned on the trailing axes, like NumPy broadcasting)
+    esubs = ["...ij,...jk->...ik", "...i,...i->...", "...ij,...j->...i", "i...,i...->...", "...ij,...jk", "...i,...i"]
+    eranks = [(2, 1), (1, 2), (2, 0), (0, 2), (3, 1), (1, 3), (1, 1), (2, 2)]
+    for t in range(16 if quick else 160):
+        sub = esubs[t % len(esubs)]
+        ra, rb = eranks[t % len(eranks)] if t < 2 * len(eranks) else rng.choice(eranks)
+        B = [2, 3, 2][-max(ra, rb):] if max(ra, rb) else []
+        if rng.random() < 0.5:
+            B = B[::-1]
+        sizes = {}
+
+        def eshape(term, r):
+            bdims = [d if rng.random() < 0.8 else 1 for d in (B[len(B) - r:] if r else [])]
+            out, rest = [], term
+            while rest:
+                if rest.startswith("..."):
+                    out += bdims
+                    rest = rest[3:]
+                else:
+                    out.append(sizes.setdefault(rest[0], rng.choice([1, 2, 3])))
+                    rest = rest[1:]
+            return out
+        lhs = sub.split("->")[0].split(",")
+        sa, sb = eshape(lhs[0], ra), eshape(lhs[1], rb)
+        ka, kb = rng.choice(["coo", "gcxs", "nd"]), rng.choice(["coo", "gcxs", "nd"])
+        if ka == "nd" and kb == "nd":
+            kb = "coo"
+        if (ka == "gcxs" and len(sa) < 1) or (kb == "gcxs" and len(sb) < 1):
+            ka, kb = "coo", "coo"
+        add("einsum", rand_spec(rng, sa, 0.8), ka, rand_spec(rng, sb, 0.8), kb, sub=sub, tag="einsum_ellipsis", follow=False)
+    # a label of extent 1 in one operand against a larger extent in the other (np.einsum broadcasts)
+    for sub, sa_, sb_ in (("ij,ij->ij", (2, 3), (1, 3)), ("ij,jk->ik", (2, 1), (3, 2)), ("ij,ij->", (1, 1), (2, 3))):
+        add("einsum", rand_spec(rng, sa_, 0.9), rng.choice(["coo", "gcxs"]), rand_spec(rng, sb_, 0.9), rng.choice(["coo", "gcxs", "nd"]),
+            sub=sub, tag="einsum_extent_one", follow=False)
     for _ in range(25 if quick else 250):
         sub, na = rng.choice(subs1)
         e = [1, 2, 3] if rng.random() < 0.8 else [0, 1, 2]
@@ -787,6 +872,11 @@ def dense_lit_flat(shape, flat):
 
 
 def spec_flat(spec):
+    k = {"biga": (1 << 27) + 1, "bigb": (1 << 27) + 3}.get(spec.get("scale"), 1)
+    return [v * k for v in _spec_flat(spec)]
+
+
+def _spec_flat(spec):
     shape = spec["shape"]
     size = 1
     for d in shape:
@@ -848,6 +938,8 @@ def flags_of(case):
     """1: 2-d x 2-d product (Spec evaluated in Coq); 2/3: + exact GCXS model (compressed axes 0/1)"""
     if case["op"] not in ("tensordot", "dot", "matmul", "at") or case["b"] is None or case.get("idx"):
         return 0
+    if str(case["a"].get("scale", "")).startswith("cx"):
+        return 0            # complex values are opaque tokens for Coq: compared with NumPy's answer only
     if len(case["a"]["shape"]) != 2 or len(case["b"]["shape"]) != 2:
         return 0
     if case["op"] == "tensordot" and case["axes"] != [[1], [0]]:
@@ -900,6 +992,18 @@ def classify_api(case, code, r):
                 return "value", CL_SCIPY
         if route_csc_nd_sparse(case, r):
             return "value", CL_CSCCOUNT     # the uninitialised tail holds arbitrary indices: constructors reject them
+        if op == "einsum" and case["b"] is not None and "Inconsistent shape for index" in (r.get("r") or {}).get("msg", "") \
+                and 1 in (list(sa) + list(sb)):
+            return "value", CL_ES1
+        if op in ("matmul", "at") and len(sa) >= 3 and len(sb) >= 3 and ka != "nd" and kb != "nd":
+            # _matmul_recurser: a[i] on an empty axis / stack of no results
+            ba, bb = sa[:-2], sb[:-2]
+            n = max(len(ba), len(bb))
+            ba, bb = [1] * (n - len(ba)) + ba, [1] * (n - len(bb)) + bb
+            msg = (r.get("r") or {}).get("msg", "")
+            if any(0 in (x, y) for x, y in zip(ba, bb)) and ("Index is not smaller than dimension" in msg
+                                                             or "At least one array required" in msg):
+                return "value", CL_MM0
         return "value", None
     if code == 13:
         return "value", None       # (D19, dot of 1-d operands of different lengths, was repaired: a recurrence is new)
